@@ -96,6 +96,7 @@ type c20World struct {
 }
 
 func c20Run(c *fw.Ctx) {
+	c.Retries = 2 // socket-based harness: tolerate a transient glitch while replaying a prefix
 	vtime.SetManual(harness.T0)
 	defer vtime.SetReal()
 	pe := c06Env()
